@@ -60,6 +60,7 @@ def main():
             shutil.move(os.path.join(wt, "tests", f), os.path.join(stash, f))
     sh("git checkout -- src", cwd=wt)
     for (fn, dest, modfile) in incrate:
+        os.makedirs(os.path.dirname(os.path.join(wt, dest)), exist_ok=True)
         shutil.copy(os.path.join(demo, fn), os.path.join(wt, dest))
         mod = os.path.basename(dest)[:-3]
         with open(os.path.join(wt, modfile), "a") as f:
